@@ -22,7 +22,7 @@ var c01Custom = []struct {
 	code int32
 }{{"VERBOSE", 50}, {"NOTICE", 450}, {"ABOVE", 1500}}
 
-var c01Tag = log.RegisterTag("_c01_probe")
+var c01Tag *log.Tag
 
 func c01ProbeCodes() []int32 {
 	base := []log.Level{log.NoneLevel, log.TraceLevel, log.DebugLevel, log.InfoLevel, log.WarnLevel, log.ErrorLevel,
@@ -52,6 +52,7 @@ func c01ProbeCodes() []int32 {
 //   kind: sync async console file rolling rollingsep rollingasync rollingsepasync
 // Observation: "err" or one token per probe "p<i>=<deliveries>", deliveries = sorted "<id><e|w>" (ref kinds) or "<id>".
 func runC01(cases []string, out *bufio.Writer, _ []string) {
+	c01Tag = log.RegisterTag("_c01_probe")
 	for _, c := range c01Custom {
 		log.RegisterLevel(c.code, c.name)
 	}
